@@ -158,18 +158,22 @@ for c in cases:
     if c.get('csv'):
         try:
             inp = os.path.join(d, 'in.csv'); outp = os.path.join(d, 'out.csv')
+            # every third CSV case: both files begin with COMMENT lines and the query runs with a comment prefix — the header is the first line that is not a comment, in both tables
+            commented = (len(out) % 3 == 0) and not any(x.startswith('#') for x in (c['ih'] or []) + [y for r in c['A'] for y in r[:1]])
             with open(inp, 'w') as f:
+                if commented: f.write('# exported by some tool\n#second,comment,line,with,many,commas\n')
                 for r in ([c['ih']] if c['ih'] else []) + c['A']:
                     f.write(','.join(rbql.csv_utils.quote_field(x, ',') for x in r) + '\n')
             text = c['text']
             if c['B'] is not None:
                 jp = os.path.join(d, 'j.csv')
                 with open(jp, 'w') as f:
+                    if commented: f.write('# join table,of,the,tool\n')
                     for r in ([c['jh']] if c['jh'] else []) + c['B']:
                         f.write(','.join(r) + '\n')
                 text = text.replace(' join b on', ' join %s on' % jp)
             ww = []
-            rbql_csv.query_csv(text, inp, ',', 'quoted', outp, ',', 'quoted', 'utf-8', ww, c['ih'] is not None)
+            rbql_csv.query_csv(text, inp, ',', 'quoted', outp, ',', 'quoted', 'utf-8', ww, c['ih'] is not None, '#' if commented else None)
             lines = open(outp).read().split('\n')
             o['csv'] = {'first': rbql.csv_utils.split_quoted_str(lines[0], ',')[0] if lines and lines[0] != '' or len(lines) > 1 else None, 'nlines': len([l for l in lines if l != ''])}
         except Exception as e:
